@@ -31,6 +31,7 @@ TRUSTED = [
     "hashability table: bytearray/list/dict/set unhashable, memoryview hashable only when read-only",
     "curated raise-set table for stdlib constructors/parsers used by the routines",
     "coarse-equality table: aware datetime/time compare by instant; typing.Union equality ignores member order; 1 == 1.0 == True",
+    "state-field table: re.Pattern = (pattern, flags); Fraction = (numerator, denominator); timedelta = (days, seconds, microseconds); UUID = any one of int/hex/bytes/fields",
 ]
 
 
@@ -136,6 +137,24 @@ def hashable(dotted: str) -> bool | None:
         return None
     return getattr(c, "__hash__", None) is not None
 
+
+# attribute sets that determine a value of the class completely (any one set suffices)
+STATE_FIELDS = {
+    "re.Pattern": [{"pattern", "flags"}],
+    "fractions.Fraction": [{"numerator", "denominator"}],
+    "datetime.timedelta": [{"days", "seconds", "microseconds"}],
+    "uuid.UUID": [{"int"}, {"hex"}, {"bytes"}, {"bytes_le"}, {"fields"}, {"urn"}],
+}
+
+
+def _check_state_fields():
+    import re as _re
+
+    pat = _re.compile("a", _re.I)
+    assert _re.compile(pat.pattern, pat.flags) == pat and _re.compile(pat.pattern) != pat
+
+
+_check_state_fields()
 
 UTC_NAMES = {"datetime.timezone.utc", "datetime.UTC"}
 
